@@ -167,6 +167,7 @@ fn pz_q_scoped() {
 	pz.scoped_read(&mut key, |d| {
 		calls.set(calls.get() + 1);
 		assert!(s.mine.get() == 1, "C02_closure_runs_only_while_held_shared");
+		assert!(key_flag(), "C06_no_key_obtainable_inside_scoped_call");
 		assert!(d.is_err() == poisoned, "C10_scoped_read_reports_err_iff_poisoned");
 		let d = match d { Ok(d) => d, Err(e) => e.into_inner() };
 		assert!(*d == 9, "C02_next_section_sees_last_write");
@@ -177,6 +178,7 @@ fn pz_q_scoped() {
 	let pre = s.snap();
 	let r = pz.scoped_try_lock(key, |d| {
 		calls.set(calls.get() + 1);
+		assert!(key_flag(), "C06_no_key_obtainable_inside_scoped_call");
 		assert!(d.is_err() == poisoned, "C10_scoped_try_lock_reports_err_iff_poisoned");
 	});
 	match r {
@@ -252,4 +254,27 @@ fn pz_q_lock_reports_poison_that_happened_while_waiting() {
 	kani::cover!(w().env_poisoned && which, "poisoned_while_waiting_lock");
 	kani::cover!(w().env_poisoned && !which, "poisoned_while_waiting_read");
 	kani::cover!(!w().env_poisoned, "holder_released_normally");
+}}
+
+vharness! {
+fn pz_q_scoped_try_read_owned_key() {
+	let pz = PR::new(new_rw(0, 5));
+	let s = rraw(pp::inner(&pz));
+	s.other.set(any_other_rw());
+	let pre = s.snap();
+	let calls = Cell::new(0u8);
+	let key = ThreadKey::get().unwrap();
+	let r = pz.scoped_try_read(key, |d| {
+		calls.set(calls.get() + 1);
+		assert!(s.mine.get() == 1, "C02_closure_runs_only_while_held_shared");
+		assert!(key_flag(), "C06_no_key_obtainable_inside_scoped_call");
+		assert!(d.is_ok(), "C10_fresh_poisonable_is_not_poisoned");
+	});
+	match r {
+		Ok(()) => assert!(pre.other != EXCL && calls.get() == 1 && !key_flag(), "C13_scoped_try_read_succeeds_iff_grantable"),
+		Err(k) => { assert!(pre.other == EXCL && calls.get() == 0 && key_flag(), "C13_scoped_try_read_fails_iff_held_exclusively"); drop(k); }
+	}
+	assert!(s.snap() == pre && s.balanced_and_free(), "C05_every_hold_released_once_in_its_mode");
+	kani::cover!(calls.get() == 1, "ran");
+	kani::cover!(calls.get() == 0, "would_block");
 }}
